@@ -7,6 +7,7 @@ units this engine contributes (unit ids are unique and start with `c.`); [] for 
          src/chacha20.c (init, core counter + ERR_MAX_DATA, seek over the integers, encrypt buffering)
     C02  src/chacha20.c:chacha20_core == RFC 8439 block function; src/raw_ocb.c L table (when registered)
     C09  in-place == out-of-place configurations of CTR_encrypt / chacha20_encrypt / CBC_encrypt / CBC_decrypt
+    C03  <HASH>_update / add_bits of the SHA-2 template: message bit count == 8 * bytes absorbed for every length, buffer accounting
     C12  <HASH>_pbkdf2_hmac_assist (SHA-224/256/384/512, SHA-1, MD5): T = U_1 xor ... xor U_c over all digest bytes
     C17  ec_scalar_g_p256/p384/p521 (src/ec_ws.c): prot_g[i] / buffer indexing for every exp_size, callee contracts assumed;
          memory-safety obligations of all of the above + whole-library scans alloc_checked / const_index
@@ -22,10 +23,14 @@ MODULES = {
     'chacha20': 'contracts.c.chacha20',
     'raw_ocb': 'contracts.c.raw_ocb',
     'raw_cbc': 'contracts.c.raw_cbc',
+    'raw_ofb': 'contracts.c.raw_ofb',
 }
 PBKDF2 = ['contracts.c.pbkdf2_sha224', 'contracts.c.pbkdf2_sha256', 'contracts.c.pbkdf2_sha384', 'contracts.c.pbkdf2_sha512',
           'contracts.c.pbkdf2_sha1', 'contracts.c.pbkdf2_md5']
 CBC_FUNCS = ['CBC_start_operation', 'CBC_encrypt', 'CBC_decrypt']
+OFB_FUNCS = ['OFB_start_operation', 'OFB_encrypt']
+CTR_COUNTER_FUNCS = ['increment_be', 'increment_le', 'create_counter_blocks', 'update_keystream', 'create_keystream', 'CTR_start_operation']
+SHA2_UPDATE = ['contracts.c.sha2_update_sha224', 'contracts.c.sha2_update_sha256', 'contracts.c.sha2_update_sha384', 'contracts.c.sha2_update_sha512']
 EC_WS = ['contracts.c.ec_ws_p256', 'contracts.c.ec_ws_p384', 'contracts.c.ec_ws_p521']
 SCAN_CHUNKS = 8
 
@@ -45,6 +50,17 @@ def _prefix(us):
     return us
 
 
+def _ofb_units(prop):
+    """src/raw_ofb.c, functional: the cheap configurations (NULL arguments, oversized block, start_operation) in both tiers; the stream
+    postcondition of OFB_encrypt with out disjoint from in (block length 16 and 8) in the thorough tier only: its inner-loop invariant needs
+    40-230 s of z3 on an idle machine, too close to the budget for the quick tier.  NOT PROVED: the in-place configurations (bl16.inplace was
+    discharged once in 277 s, bl8.inplace left `loop1.xor_s` undecided): in-place OFB stays with the bounded harness (bounded/modes.py)."""
+    us = U.c_units(prop, MODULES['raw_ofb'], ['OFB_start_operation'], kinds='functional')
+    us += U.c_units(prop, MODULES['raw_ofb'], ['OFB_encrypt'], kinds='functional', config_filter=lambda c: c.startswith('null') or c == 'block_too_long')
+    us += U.c_units(prop, MODULES['raw_ofb'], ['OFB_encrypt'], kinds='functional', tiers=('thorough',), config_filter=lambda c: 'disjoint' in c)
+    return us
+
+
 def units(prop, tier):
     us = []
     if prop == 'C01':
@@ -58,22 +74,31 @@ def units(prop, tier):
         us += U.c_units(prop, MODULES['chacha20'], ['chacha20_init', 'chacha20_core', 'chacha20_seek', 'chacha20_encrypt'])
     elif prop == 'C02':
         us += U.c_units(prop, MODULES['chacha20'], ['chacha20_core'], kinds='functional')
+        # SP 800-38A B.1 / B.2: the counter blocks of CTR mode (both byte orders, every counter length, the +1 and the +8 steps)
+        us += U.c_units(prop, MODULES['raw_ctr'], CTR_COUNTER_FUNCS, kinds='functional')
         if _have(MODULES['raw_ocb']):
             us += U.c_units(prop, MODULES['raw_ocb'], ['double_L', 'ntz', 'OCB_start_operation'], kinds='functional')
         us += U.c_units(prop, MODULES['raw_cbc'], CBC_FUNCS, kinds='functional', config_filter=lambda c: 'inplace' not in c)
+        us += _ofb_units(prop)
     elif prop == 'C09':
         us += U.c_units(prop, MODULES['raw_ctr'], ['CTR_encrypt'], kinds='functional')
         us += U.c_units(prop, MODULES['chacha20'], ['chacha20_encrypt'], kinds='functional')
         # CBC: in-place == out-of-place, chaining value for the next call (segmentation)
         us += U.c_units(prop, MODULES['raw_cbc'], ['CBC_encrypt', 'CBC_decrypt'], kinds='functional')
+        # OFB: key stream position carried by the state, any cut of the message continues the same stream
+        us += _ofb_units(prop)
+    elif prop == 'C03':
+        # FIPS 180-4 5.1: the bit length appended by the padding == 8 * (bytes absorbed), for every update length (no silent wrap)
+        for m in SHA2_UPDATE:
+            us += U.c_units(prop, m, kinds='functional')
     elif prop == 'C12':
         for m in PBKDF2:
             us += U.c_units(prop, m, kinds='functional')
     elif prop == 'C17':
-        for m in ('pkcs1_decode', 'raw_ctr', 'chacha20', 'raw_ocb', 'raw_cbc'):
+        for m in ('pkcs1_decode', 'raw_ctr', 'chacha20', 'raw_ocb', 'raw_cbc', 'raw_ofb'):
             if _have(MODULES[m]):
                 us += U.c_units(prop, MODULES[m], kinds='safety')
-        for m in PBKDF2:
+        for m in PBKDF2 + SHA2_UPDATE:
             us += U.c_units(prop, m, kinds='safety')
         # fixed-base scalar multiplication: table indexing for every scalar length (invariants included: only C17 has them)
         for m in EC_WS:
